@@ -6,6 +6,7 @@ CONSTANTS
   BuiltinClashCrashes = FALSE
   LateBuiltinShadowed = TRUE
   AddRawKey = FALSE
+  HeaderBlanksKept = FALSE
   AddMerged = FALSE
 INVARIANT NoDuplicateSurvives
 INVARIANT Terminates
